@@ -88,11 +88,12 @@ theorem recover_returns_stored (j : Journal) (hinv : JInv j) (h : Handle) (dir :
 
 /-- it never raises and never leaves the model when key and int bounds fit 64 bits and text bounds
 are not floating point literals -/
-theorem recover_total (j : Journal) (h : Handle) (dir : Dir) (lo hi : Bound) (hk : fits h.key = true)
-    (hlo : lo.eval ≠ .overflow ∧ lo.eval ≠ .unmodelled) (hhi : hi.eval ≠ .overflow ∧ hi.eval ≠ .unmodelled) :
+theorem recover_total (j : Journal) (h : Handle) (dir : Dir) (lo hi : Bound)
+    (hk : fits h.key = true ∧ fits lo.param = true ∧ fits hi.param = true)
+    (hlo : lo.eval ≠ .unmodelled) (hhi : hi.eval ≠ .unmodelled) :
     ∃ ms, recoverMessages j h dir lo hi = .msgs ms := by
   unfold recoverMessages
-  simp only [hk, Bool.not_true, Bool.false_eq_true, if_false]
+  simp only [hk.1, hk.2.1, hk.2.2, Bool.and_self, Bool.not_true, Bool.false_eq_true, if_false]
   cases hl : lo.eval <;> cases hu : hi.eval <;> simp_all
 
 /-- a stored message is returned by every range query that includes its number … -/
@@ -121,8 +122,7 @@ theorem recover_inverted_empty (j : Journal) (hinv : JInv j) (h : Handle) (dir :
   | nil => rfl
   | cons m rest =>
     obtain ⟨n, h1, h2, -⟩ := recover_only_own j hinv h dir _ _ _ hres m (List.mem_cons_self ..)
-    simp only [Bound.eval] at h1 h2
-    split at h1 <;> split at h2 <;> simp_all [BVal.le, BVal.ge]
+    simp only [Bound.eval, BVal.le, BVal.ge, decide_eq_true_eq] at h1 h2
     omega
 
 /-- the abstract range determines the answer: two answers to the same query are equal -/
